@@ -70,6 +70,10 @@ def corpus():
         out.append("DEC " + xhex(b"\x81" * k + b"\x00"))
         out.append("DEC " + xhex(b"\x9f" * k))
         out.append("DEC " + xhex(base[:2] + b"\xd8\x18" * k + base[2:]))
+    # indefinite-length primary arrays (no size hint): fragment fields by flag + CRC type
+    out += ["DEC x9f9f07010082010082010082010082000000ff85010100004101ff", "DEC x9f9f070100820100820100820100820000000405ff85010100004101ff",
+            "DEC x9f9f07010182010082010082010082000000040542abcdff85010100004101ff", "DEC x9f9f0700018201008201008201008200000042abcdff85010100004101ff",
+            "DEC x9f9f070000820100820100820100820000000405ff85010100004101ff"]
     out += ["DEC x", "DEC x9f", "DEC x9fff", "DEC x9b" + "ff" * 8, "DEC x5b" + "ff" * 8 + "00", "DEC x7b" + "ff" * 8, "DEC x9f9b" + "ff" * 8]
     return out
 
